@@ -262,6 +262,9 @@ class Engine:
             ta, tb = self.truth(None, a), self.truth(None, b)
             self._bit01 = True
             return VInt(z3.If(z3.Xor(ta, tb), z3.IntVal(1), z3.IntVal(0)))
+        if isinstance(op, ast.Mod) and a.kind == 'str':
+            # '%'-formatting: an opaque string constructor
+            return VStr(fresh('fmt', Str))
         if not (is_num(a) and is_num(b)):
             raise EngineError('binary %s on %s, %s' % (type(op).__name__, a.kind, b.kind))
         real = a.kind == 'real' or b.kind == 'real' or isinstance(op, ast.Div)
@@ -410,6 +413,9 @@ class Engine:
             return n.idom[cont.key][self.unwrap(x, n.inner[0])]
         if cont.kind == 'dictval':
             return cont.dom[self.unwrap(x, cont.kkind)]
+        if cont.kind == 'arrval':
+            k = fresh('k', I)
+            return z3.Exists([k], z3.And(0 <= k, k < cont.n, cont.a[k] == self.unwrap(x, cont.elem)))
         if cont.kind == 'range':
             xi = to_int(x)
             return z3.And(cont.lo <= xi, xi < cont.hi)
@@ -480,6 +486,8 @@ class Engine:
                 v = self.world.obj_attr(self, st, base, n, attr) if self.world else None
                 if v is not None:
                     return v
+                if self.world is not None and self.world.has_method(n.cls, attr):
+                    return VFn('method', recv=base, name=attr)
                 raise EngineError('object %s has no field %r' % (n.cls, attr))
             if isinstance(n, Arr):
                 if attr == 'size':
@@ -710,11 +718,11 @@ class Engine:
                 vars_.append(k)
             else:
                 cont = self.sev(it, st, bound)
-                if cont.kind == 'ref' and isinstance(st.node(cont), Dict):
-                    n = st.node(cont)
-                    k = fresh(nm, self.sort_of_kind(n.kkind))
-                    guards.append(n.dom[k])
-                    bound[nm] = self.wrap(n.kkind, k)
+                dd = self.as_dict(st, cont)
+                if dd is not None:
+                    k = fresh(nm, self.sort_of_kind(dd[0]))
+                    guards.append(dd[2][k])
+                    bound[nm] = self.wrap(dd[0], k)
                     vars_.append(k)
                 elif cont.kind == 'tuple':
                     # finite expansion
